@@ -672,6 +672,134 @@ def run(c):
         c.count(("emulated", style, exact, fam))
     c.cov["emulated_adaptive"] = emu
 
+    # ------------------------------------------------------------------ E: the adaptive-step hypothesis on the real integrators
+    # `IsAdaptive` (hypothesis of c08_adaptive_exact_finish) asserted at every heartbeat of real runs that force the step-size controller to
+    # shrink / reject (e = 0.95 started at pericentre, crossing orbits), across the documented step-size options and both time directions:
+    # sign(dt) == direction, t monotone in the direction, |dt| within [min_dt, max_dt] when set, termination within a step budget.
+    def stiff_sim(integ, rng, dt):
+        sim = rebound.Simulation()
+        sim.integrator = integ
+        sim.add(m=1.0)
+        sim.add(m=rng.loguniform(1e-5, 1e-3), a=1.0, e=rng.choice([0.95, 0.95, 0.9, 0.98]), f=rng.choice([0.0, 0.0, 0.3, 3.0]))
+        if rng.chance(0.5):      # a second planet on a crossing orbit: close encounters
+            sim.add(m=rng.loguniform(1e-5, 1e-3), a=rng.uniform(0.6, 1.4), e=rng.uniform(0.3, 0.6), f=rng.uniform(0, 6.28), omega=rng.uniform(0, 6.28))
+        sim.move_to_com()
+        sim.dt = dt
+        return sim
+
+    opt_stats = {"runs": 0, "steps": 0, "min_dt_clamped_steps": 0, "capped": 0, "by_config": {}}
+    BUDGET = 6000
+    configs = []
+    for mode in (0, 1, 2, 3):
+        for min_dt in (0.0, 2e-3, 2e-2):
+            configs.append(("ias15", dict(adaptive_mode=mode, min_dt=min_dt)))
+    configs += [("ias15", dict(adaptive_mode=2, min_dt=0.0, epsilon=1e-5)), ("ias15", dict(adaptive_mode=1, min_dt=5e-3, epsilon=1e-6)),
+                ("ias15", dict(adaptive_mode=2, min_dt=0.1)),
+                ("bs", dict(min_dt=0.0, max_dt=0.0)), ("bs", dict(min_dt=2e-3, max_dt=0.0)), ("bs", dict(min_dt=0.0, max_dt=0.05)),
+                ("bs", dict(min_dt=1e-3, max_dt=0.1, eps=1e-9)), ("bs", dict(min_dt=2e-2, max_dt=0.0, eps=1e-4)),
+                ("mercurius", {}), ("mercurius", {}), ("trace", {}), ("trace", {})]
+    reps = 4 if thorough else 1
+    for rep in range(reps):
+        for integ, opts in configs:
+            for direction in ((1,) if integ == "trace" else (1, -1)):
+                rng = c.rng.fork()
+                dt0 = rng.choice([0.01, 0.05, 0.3]) * rng.choice([1, -1])
+                if integ in ("mercurius", "trace"):
+                    dt0 = abs(rng.choice([0.01, 0.03])) * (rng.choice([1, -1]) if integ == "mercurius" else 1)
+                sim = stiff_sim(integ, rng, dt0)
+                lo = hi = 0.0
+                if integ == "ias15":
+                    sim.ri_ias15.adaptive_mode = opts["adaptive_mode"]
+                    sim.ri_ias15.min_dt = lo = opts["min_dt"]
+                    if "epsilon" in opts:
+                        sim.ri_ias15.epsilon = opts["epsilon"]
+                elif integ == "bs":
+                    sim.ri_bs.min_dt = lo = opts["min_dt"]
+                    sim.ri_bs.max_dt = hi = opts["max_dt"]
+                    sim.ri_bs.eps_abs = sim.ri_bs.eps_rel = opts.get("eps", 1e-6)
+                tmax = direction * rng.uniform(3.0, 7.5)
+                exact = rng.choice([1, 1, 0])
+                rec = H.call(sim, tmax, exact, cap=BUDGET)
+                record(integ, rec, "options", is_bs=(integ == "bs"))
+                beats = rec["beats"]
+                opt_stats["runs"] += 1
+                opt_stats["steps"] += len(beats) - 1
+                key = "%s %s" % (integ, json.dumps(opts, sort_keys=True))
+                opt_stats["by_config"][key] = opt_stats["by_config"].get(key, 0) + len(beats) - 1
+                info = dict(integrator=integ, options=opts, dt=dt0, tmax=tmax, exact_finish_time=exact, steps=len(beats) - 1,
+                            t_end=rec["post"][0], dt_end=rec["post"][1], status=rec["ret"],
+                            system=[[p.m, p.x, p.y, p.z, p.vx, p.vy, p.vz] for p in [sim.particles[i] for i in range(sim.N)]][:0])
+                bad = None
+                for k in range(1, len(beats)):
+                    tb, dtb = beats[k][0], beats[k][1]
+                    if math.copysign(1.0, dtb) != direction or dtb == 0.0:
+                        bad = ("adaptive-dt-sign", "an adaptive integrator left dt pointing against the direction of integration at a step boundary",
+                               dict(info, boundary=k, t=tb, dt_at_boundary=dtb))
+                    elif (tb - beats[k - 1][0]) * direction < 0:
+                        bad = ("time-backwards", "time moved against the direction of integration", dict(info, boundary=k, t_a=beats[k - 1][0], t_b=tb))
+                    elif lo and abs(dtb) < min(lo, 4.0 * abs(beats[k][2])) * (1 - 1e-9):
+                        # (IAS15 clamps to min_dt first and then limits growth to 4x the step just done: after a last step cut to fit tmax the
+                        #  proposal may legitimately stay below min_dt)
+                        bad = ("adaptive-min-dt", "step size below min_dt at a step boundary", dict(info, boundary=k, dt_at_boundary=dtb, min_dt=lo))
+                    elif hi and abs(dtb) > hi * (1 + 1e-12):
+                        bad = ("adaptive-max-dt", "step size above max_dt at a step boundary", dict(info, boundary=k, dt_at_boundary=dtb, max_dt=hi))
+                    if lo and abs(dtb) <= lo * (1 + 1e-12):
+                        opt_stats["min_dt_clamped_steps"] += 1
+                    if bad:
+                        break
+                if bad is None and (rec["capped"] or rec["ret"] != 0):
+                    opt_stats["capped"] += 1
+                    tail = beats[-200:]
+                    if integ == "bs" and lo and all(d2h(b[0]) == d2h(tail[0][0]) and abs(b[1]) <= lo * (1 + 1e-12) for b in tail):
+                        bad = ("C08-N3:bs-min-dt-rejects-forever",
+                               "BS with min_dt: a step that fails the tolerance at dt = min_dt is rejected and retried with the same dt for ever", 
+                               dict(info, t_stuck=beats[-1][0], rejected_in_a_row=len(tail)))
+                    else:
+                        bad = ("adaptive-no-termination", "integrate() did not reach tmax within the step budget (%d steps)" % BUDGET,
+                               dict(info, t_last=beats[-1][0]))
+                if bad:
+                    fails.append(bad)
+                else:
+                    check_contract(c, integ, rec, abs(dt0), fails, worst)
+                c.count(("options", integ, json.dumps(opts, sort_keys=True), direction, exact))
+    c.cov["adaptive_options"] = opt_stats
+
+    # ------------------------------------------------------------------ F: the synchronize event of the overshoot branch is observable
+    # WHFast with safe_mode = 0: ri_whfast.is_synchronized, read from an additional_forces callback (between part1 and part2 of a step), tells
+    # whether reb_simulation_synchronize ran since the previous step.  Model: `checkExit` synchronizes exactly in the two branches that continue
+    # with status LAST_STEP, so step k (k >= 1) must start synchronized  <=>  the heartbeat after it sees status LAST_STEP.
+    sync_stats = {"steps": 0, "synchronized_starts": 0, "mismatch": 0}
+    nF = 40 if thorough else 8
+    for rep in range(nF):
+        rng = c.rng.fork()
+        t0, dt, tmax, fam = gen_triple(rng)
+        if fam == "huge_t" or tmax == t0:
+            continue
+        sim = H.make_sim("whfast", t0, dt, rng)
+        sim.ri_whfast.safe_mode = 0
+        flags_seen = []
+
+        def af(sp, flags_seen=flags_seen):
+            flags_seen.append(sp.contents.ri_whfast.is_synchronized)
+        sim.additional_forces = af
+        rec = H.call(sim, tmax, 1)
+        record("whfast", rec, "sync-observable")
+        sts = [b[4] for b in rec["beats"][1:]]
+        if len(flags_seen) != len(sts):
+            c.corr_break("additional_forces ran %d times for %d steps" % (len(flags_seen), len(sts)))
+            continue
+        for k in range(1, len(sts)):
+            sync_stats["steps"] += 1
+            sync_stats["synchronized_starts"] += 1 if flags_seen[k] else 0
+            if bool(flags_seen[k]) != (sts[k] == -2):
+                sync_stats["mismatch"] += 1
+                c.corr_break("reb_check_exit: synchronize event and LAST_STEP disagree (step %d of a WHFast safe_mode=0 run started %s, status during the step %d)"
+                             % (k, "synchronized" if flags_seen[k] else "unsynchronized", sts[k]),
+                             dict(t0=t0, dt=dt, tmax=tmax, flags=flags_seen, statuses=sts))
+                break
+        c.count(("sync-observable", fam))
+    c.cov["synchronize_event"] = sync_stats
+
     # ------------------------------------------------------------------ model vs implementation
     c.log("running %d integrate calls through drv_c08" % len(lines))
     got = run_driver(exe, lines)
@@ -694,6 +822,17 @@ def run(c):
                              "first_difference_at_token": idx, "model": a[max(0, idx - 3): idx + 4], "impl": e[max(0, idx - 3): idx + 4],
                              "model_head": a[:7], "impl_head": e[:7], "line": l[:300]}
                 continue
+            # synchronize calls of the model: one per step taken in LAST_STEP (the two overshoot branches) + the final one
+            # (runs that end with SUCCESS: every LAST_STEP entry / continuation is followed by a step, so the count is determined by what the
+            #  real heartbeats saw)
+            if pa[0][0] == "done" and rec["ret"] == 0:
+                nlast = sum(1 for b in rec["beats"][1:] if b[4] == -2)
+                if pa[1] != nlast + 1:
+                    ndis += 1
+                    if first is None:
+                        first = {"integrator": integ, "case": tag, "what": "number of synchronize calls in the model", "model_syncs": pa[1],
+                                 "steps_in_LAST_STEP": nlast}
+                    continue
             # emulated adaptive integrator: the step size every step was called with is observable -> compare it too
             if rec.get("dt_in") is not None and [d2h(x) for x in rec["dt_in"]] != pa[2][:len(rec["dt_in"])]:
                 ndis += 1
